@@ -14,3 +14,54 @@ macro_rules! wire_harness {
 }
 instantiate_catalogue!(wire_harness);
 instantiate_derived!(wire_harness);
+
+/// Header layout of the schema-less container: "savefile\0" ‖ format version 2 (u16 LE) ‖ data version (u32 LE,
+/// symbolic) ‖ compression flag 0 ‖ reference encoding of the value.
+macro_rules! hdr_harness {
+    ($name:ident, $t:ty, $len:expr) => {
+        kproof!($name, 11, {
+            set_len($len);
+            let x: $t = <$t as VT>::any();
+            let ver: u32 = kani::any();
+            let mut r = RefBuf::new();
+            r.put(b"savefile\0");
+            r.put(&2u16.to_le_bytes());
+            r.put(&ver.to_le_bytes());
+            r.put(&[0u8]);
+            x.enc(&mut r);
+            let mut buf = [0u8; REFCAP];
+            let n;
+            {
+                let mut cur = std::io::Cursor::new(&mut buf[..]);
+                save_noschema(&mut cur, ver, &x).unwrap();
+                n = cur.position() as usize;
+            }
+            assert!(n == r.n, "C02: save_noschema output length differs from header + reference encoding");
+            let i: usize = kani::any();
+            kani::assume(i < r.n);
+            assert!(buf[i] == r.b[i], "C02: save_noschema output byte differs from the documented header / reference encoding");
+            // data written to the frozen layout is readable by this build
+            let mut rd: &[u8] = &r.b[..r.n];
+            let y: $t = load_noschema(&mut rd, ver).unwrap();
+            assert!(rd.len() == 0 && x.same(&y), "C02: a file in the documented layout is not read back to the value");
+            std::mem::forget(x);
+            std::mem::forget(y);
+            kani::cover!(true, "reached end");
+        });
+    };
+}
+pub mod hq {
+    use super::*;
+    use crate::dtypes::*;
+    hdr_harness!(h_u32, u32, 0);
+    hdr_harness!(h_struct, SqPaddedC, 0);
+    hdr_harness!(h_vec_u16, Vec<u16>, 2);
+}
+pub mod ht {
+    use super::*;
+    use crate::dtypes::*;
+    hdr_harness!(h_string, String, 2);
+    hdr_harness!(h_enum, EqData, 0);
+    hdr_harness!(h_opt, Option<u8>, 0);
+    hdr_harness!(h_unit, (), 0);
+}
